@@ -1701,6 +1701,19 @@ def _new_level_names(prog, keep: set[str]) -> dict[str, ast.AST | None]:
                 continue
             out[q] = val if _literal_table(val) and not _mutated(
                 mod.tree, tgt) else None
+    # a class level name that several classes of one hierarchy define is
+    # configuration read through self / cls: which value a method sees
+    # depends on the receiver's class, so it is no constant of the method
+    # (Program.specialise resolves it per class)
+    by_attr: dict[str, list[str]] = {}
+    for q in out:
+        rhs = q.split(":=")[1]
+        if "." in rhs:
+            by_attr.setdefault(rhs.split(".")[-1], []).append(q)
+    for attr, qs in by_attr.items():
+        if len(qs) > 1:
+            for q in qs:
+                out[q] = None
     return out
 
 
